@@ -189,8 +189,11 @@ def plan(tier, seed):
 def run(job):
     acc = Acc(job["sub"])
     if job["sub"] == "large_p":
-        for s in job["seeds"]:
-            case = {"sub": "large_p", "p": job["p"], "K": job["K"], "size": job["size"], "replace": job["replace"], "seeds": [s]}
+        # requests with hundreds of interventions are judged over all seeds of the job at once ("every variable occurs")
+        groups = [job["seeds"]] if (job["replace"] and job["K"] >= 500) else [[s] for s in job["seeds"]]
+        for grp in groups:
+            s = grp[0]
+            case = {"sub": "large_p", "p": job["p"], "K": job["K"], "size": job["size"], "replace": job["replace"], "seeds": list(grp)}
             try:
                 lab = check(case)
                 acc.record(case, lab + ["large_pool"], True, by_construction=True, sample=(s == job["seeds"][0] and job["p"] == 61))
